@@ -12,6 +12,8 @@ from concurrent.futures import ThreadPoolExecutor
 
 HERE = os.path.dirname(os.path.abspath(__file__))
 ROOT = os.path.dirname(HERE)
+# evidence / replays of experiments against scratch trees (VERIF_REPO) can be redirected so that they do not overwrite the real ones
+OUTROOT = os.environ.get('VERIF_OUT', ROOT)
 sys.path.insert(0, HERE)
 import rx  # noqa
 
@@ -1269,7 +1271,7 @@ def check(prop, tier):
         n_dis += e.get('discharged', 0)
     rc = 0
     replay_paths = []
-    os.makedirs(os.path.join(ROOT, 'replays'), exist_ok=True)
+    os.makedirs(os.path.join(OUTROOT, 'replays'), exist_ok=True)
     # concrete scenarios on the real code: counterexample search when an obligation failed, bounded stand-in when undecided
     wit = None
     if violations or undecided:
@@ -1288,7 +1290,7 @@ def check(prop, tier):
     if violations:
         rc = 1
         for n, f in enumerate(violations):
-            path = os.path.join(ROOT, 'replays', '%s-%s-%d.json' % (prop, time.strftime('%Y%m%dT%H%M%S'), n))
+            path = os.path.join(OUTROOT, 'replays', '%s-%s-%d.json' % (prop, time.strftime('%Y%m%dT%H%M%S'), n))
             witness = None
             if wit and wit.get('failed'):
                 witness = {'kind': 'concrete scenario failing on the real code', 'tests': wit['failed'], 'cmd': wit['failed'][0]['cmd']}
@@ -1335,7 +1337,7 @@ def find_witness(prop, f):
 
 
 def write_evidence(prop, tier, seed, results, extra, obligations, n_ob, n_dis, violations, knowns, undecided, wall):
-    os.makedirs(os.path.join(ROOT, 'evidence'), exist_ok=True)
+    os.makedirs(os.path.join(OUTROOT, 'evidence'), exist_ok=True)
     trusted = []
     fns = []
     samples = []
@@ -1379,7 +1381,7 @@ def write_evidence(prop, tier, seed, results, extra, obligations, n_ob, n_dis, v
         'wall_s': round(wall, 2),
         'violations': len(violations),
     }
-    json.dump(ev, open(os.path.join(ROOT, 'evidence', prop + '.json'), 'w'), indent=1)
+    json.dump(ev, open(os.path.join(OUTROOT, 'evidence', prop + '.json'), 'w'), indent=1)
 
 
 def main(argv):
